@@ -99,12 +99,12 @@ def norm_cell(s):
     return re.sub(r"\s+", " ", re.sub(r"\$\{[^}]*\}", "@", "".join({"‘": "'", "’": "'", "“": '"', "”": '"'}.get(c, c) for c in s))).strip()
 
 
-def audit(form, xform):
+def audit(form, xform, api_default_language=None):
     X = xf.XF
     root = xf.lparse(xform)
     model = root.find(xf.H + "head").find(X + "model")
     body = root.find(xf.H + "body")
-    dl = (form.get("settings") or [{}])[0].get("default_language", "default")
+    dl = (form.get("settings") or [{}])[0].get("default_language", api_default_language or "default")
     langs = [t.get("lang") for t in root.iter(X + "translation")]
     probs = []
     mentioned = set()
@@ -177,6 +177,42 @@ def audit(form, xform):
     lists = {}
     for row in form.get("choices", []):
         lists.setdefault(row.get("list_name"), []).append(row)
+    # selects using search(): in-line items in the body, one per choice row, each showing that row's own cells
+    for row in form["survey"]:
+        t = " ".join(row.get("type", "").split())
+        if "search(" not in (row.get("appearance") or "") or not t.startswith(("select_one ", "select_multiple ", "select one ", "select1 ", "select all that apply ")):
+            continue
+        lst = t.split()[-1]
+        ctrl = next((e for e in body.iter() if isinstance(e.tag, str) and (e.get("ref") or "").endswith("/" + row["name"])), None)
+        if ctrl is None or lst not in lists:
+            continue
+        items = [e for e in ctrl if isinstance(e.tag, str) and e.tag == X + "item"]
+        if len(items) != len(lists[lst]):
+            probs.append(f"search() select {row['name']}: {len(items)} in-line items for {len(lists[lst])} choice rows")
+            continue
+        list_needs_itext = any(any(len(k.split("::")) == 2 and "_".join(k.split("::")[0].split()).lower() in ("label", "image", "audio", "video", "big-image") or
+                                   k.split("::")[0].strip().lower() in ("image", "audio", "video", "big-image", "media") for k in c) for c in lists[lst])
+        for idx, (item, crow) in enumerate(zip(items, lists[lst])):
+            cells = cells_of(crow, "label")
+            lab = item.find(X + "label")
+            if lab is None or not cells:
+                continue
+            ref = lab.get("ref")
+            if ref is None:
+                if list_needs_itext and langs:
+                    probs.append(f"search() select {row['name']} item {idx} ({crow.get('name')}): label in-lined although the list is translated (cells {cells})")
+                continue
+            tid = re.match(r"jr:itext\('(.*)'\)", ref).group(1)
+            for l in langs:
+                shown = text_of(c07_value(root, tid, l, None))
+                want = cells.get(l)
+                if want is None and l == dl:
+                    want = cells.get(None)
+                if want is None and l == "default" and None in cells and dl not in langs:
+                    want = cells.get(None)
+                exp = norm_cell(want) if want is not None else "-"
+                if shown != exp:
+                    probs.append(f"search() select {row['name']} item {idx} ({crow.get('name')}): language {l!r} is shown {shown!r}, the sheet says {exp!r} (cells {cells})")
     for inst in model.iter(X + "instance"):
         lst = inst.get("id")
         if lst not in lists or not len(inst):
@@ -229,15 +265,24 @@ def _check(args):
             if rng.random() < 0.2:
                 for k in [k for k in r if k.startswith("label")]:
                     del r[k]
-    st, r = xf.convert_form(forms.as_dict(form))
+    if i % 3 == 0:
+        forms.add_exotics(rng_for(seed, PID, "exotic", i), form, ["search", "search", "legacy_hint"], p=0.6)
+    api_dl = None
+    settings = (form.get("settings") or [{}])[0]
+    if i % 4 == 1 and g.langs:
+        # the default language given as an argument of convert() instead of a settings cell
+        api_dl = settings.pop("default_language", None) or rng.choice(g.langs)
+        if form.get("settings") == [{}]:
+            del form["settings"]
+    st, r = xf.convert_form(forms.as_dict(form), **({"default_language": api_dl} if api_dl else {}))
     if st != "ok":
         return {"i": i, "skip": st + ":" + str(r)[:50]}
     try:
-        probs = audit(form, r.xform)
+        probs = audit(form, r.xform, api_dl)
     except Exception as e:
         return {"i": i, "form": form, "what": f"oracle could not audit: {e!r}"}
     if probs:
-        return {"i": i, "form": form, "what": "; ".join(probs)[:900], "xform": r.xform[:2500]}
+        return {"i": i, "form": form, "api_default_language": api_dl, "what": "; ".join(probs)[:900], "xform": r.xform[:2500]}
     return {"i": i, "ok": True, "key": hash(r.xform), "n": len(g.langs)}
 
 
@@ -255,11 +300,11 @@ def oracle(seed, tier, searching=False):
     return {
         "evaluations": len(res), "distinct_nontrivial": len({r["key"] for r in oks if r["n"] > 0}),
         "rule": "generated forms with 0-3 languages, default_language settings, unsuffixed and suffixed cells mixed, shuffled column order, sparse "
-                "choice labels; for every question/group label, hint, guidance hint and every choice label, and every translation of the real XForm, "
+                "choice labels, search() selects (in-line items), the default language given as an argument of convert() instead of a settings cell; for every question/group label, hint, guidance hint and every choice label, and every translation of the real XForm, "
                 "the text shown (itext value or inline text, outputs abstracted) must equal the sheet's cell for that language (unsuffixed = default "
                 "language) or '-'; languages = those mentioned; non-trivial = at least one language",
         "accepted": len(oks), "skipped": skips,
-        "failures": [{"input": {"form": f["form"], "case": f["i"]}, "what": f["what"], "observed": f.get("xform"),
+        "failures": [{"input": {"form": f["form"], "case": f["i"], "api_default_language": f.get("api_default_language")}, "what": f["what"], "observed": f.get("xform"),
                       "reproduce": "cd /verif && /venv/bin/python harness/check.py C08 --replay <this file>"} for f in fails[:8]],
         "samples": [{"oracle_case": r["i"], "languages": r["n"]} for r in oks[:3]],
     }
@@ -272,9 +317,10 @@ def replay_finding(slug):
 def replay(path: Path) -> int:
     payload = json.loads(Path(path).read_text())
     form = payload["input"]["form"]
-    st, r = xf.convert_form(forms.as_dict(form))
+    api_dl = payload["input"].get("api_default_language")
+    st, r = xf.convert_form(forms.as_dict(form), **({"default_language": api_dl} if api_dl else {}))
     if st == "ok":
-        probs = audit(form, r.xform)
+        probs = audit(form, r.xform, api_dl)
         print(probs)
         if probs:
             print(f"VIOLATION property={PID} replay={path}")
